@@ -104,6 +104,35 @@ CLAIMED.update({
              'solver is not verified.',
         technique='Coq proof (wrapper + dtype + optimality specification, solver as a contracted section variable) + exhaustive/sampled correspondence against brute force'),
 })
+
+CLAIMED.update({
+    'C02': dict(
+        text='Theorems over the big-step script model (closed under the global context), for all trees, oracles and options: '
+             'data-equal documents cost 0 (C02_equal_zero); every model script is well priced and a zero total forces the documents '
+             'to be equal up to exactly two open findings (C02_zero_sim: zsim = equality modulo D4 Python-== on scalars of different '
+             'type inside containers and D16 zero-size elements of leaf-only lists); hence cost = 0 <-> equal as data under the two '
+             'carve-out predicates (C02_partial), with refutation witnesses for both (C02_refuted_D4 [1] vs [1.0], C02_refuted_D16 [] vs '
+             '[null]) and a classification theorem (C02_classified: the model has no other way to fail). The script-level soundness theorem '
+             'C02_spec_sound (valid & additive & priced => zero cost implies zsim) is model-independent and is evaluated on the '
+             "IMPLEMENTATION's scripts on every run, together with exact script correspondence. The command-line half (exit status and "
+             'change marks vs cost, three output modes x three strategies) is decided by differential runs of the real CLI, not by a theorem.',
+        design_ref='5.2', note=SCRIPT_NOTE + ' CLI exit status / marks: implementation runs only. Open findings: D4, D16.',
+        technique='Coq proof (induction over scripts via validity, additivity and pricing; pigeonhole for mappings) + exact script correspondence + CLI differential runs'),
+    'C09': dict(
+        text='Theorems over the loader model load f o d = wrapper(f) o build (json.build_tree model shared by all four loaders; plist wraps '
+             'in PLISTNode) and the top-level edit rules of PLISTNode: all loaders build the same tree (C09_same_tree); the same data '
+             'costs 0 between every ordered format pair outside the class of open finding D8b (C09_zero_partial, via C09_self_zero: any tree '
+             'against itself costs 0 for every oracle) and is == when both sides carry the same wrapper; the cost against a third document '
+             'is independent of the formats outside that class (C09_third_partial); INTO a plist from a non-plist the same data is a Replace of '
+             'positive cost for every document (C09_into_plist_refuted_), so the full statement is refuted on the model for all inputs. '
+             'That the third-party parsers return equal Python values is the tested oracle contract: every case writes the value in four '
+             'formats, loads them through the real Filetype.build_tree and requires the loaded tree to equal the model build of the source '
+             'value; all 16 format pairs are diffed (==, cost, sampled CLI exit status).',
+        design_ref='5.9',
+        note='Trusted: Coq kernel + VM; json/json5/PyYAML/plistlib parsers and the harness writers as oracles (tested per case); the script '
+             'model as for C01; partial: parsers are not modelled. Open finding: D8b.',
+        technique='Coq proof (loader/wrapper model over the script model) + four-format load correspondence + all-pairs differential diffs'),
+})
 NOT_YET = 'model and theorem not completed yet (DESIGN.md section 7)'
 NA = {}
 
